@@ -1,6 +1,7 @@
-//! K-vec / K-drop: `collections::Vec` against a sequence model (std's documented semantics), BOUNDED: length <= 3 (cap 4),
-//! symbolic u8 elements and symbolic index/range arguments; one 448-byte chunk; the slow path is stubbed out.
-//! Out-of-range arguments are `#[kani::should_panic]` twins.
+//! K-vec / K-drop: `collections::Vec` against a sequence model (std's documented semantics).  BOUNDED: every length 0..=3 and
+//! every index / range argument for those lengths is ENUMERATED CONCRETELY (a symbolic length or index turns every memmove
+//! into a symbolic-size copy: > 30 GB in CBMC), element values are SYMBOLIC u8; one 448-byte chunk; the slow path is stubbed
+//! out.  Out-of-range arguments are `#[kani::should_panic]` twins.
 use super::util::*;
 use crate::collections::Vec;
 use crate::*;
@@ -9,7 +10,7 @@ use core::ptr::NonNull;
 
 fn no_slow<const MIN_ALIGN: usize>(_b: &Bump<MIN_ALIGN>, _l: Layout) -> Option<NonNull<u8>> { kani::assume(false); None }
 
-const CAP: usize = 4;
+const CAP: usize = 8;
 struct Model { a: [u8; 8], n: usize }
 impl Model {
     fn insert(&mut self, i: usize, x: u8) { let mut k = self.n; while k > i { self.a[k] = self.a[k - 1]; k -= 1; } self.a[i] = x; self.n += 1; }
@@ -18,17 +19,14 @@ impl Model {
 fn same(v: &Vec<u8>, m: &Model) -> bool {
     if v.len() != m.n { return false; }
     let mut ok = true; let mut i = 0;
-    while i < 8 { if i < m.n && v[i] != m.a[i] { ok = false; } i += 1; }
+    while i < m.n { if v[i] != m.a[i] { ok = false; } i += 1; }
     ok
 }
-/// vector of symbolic length n <= max with symbolic contents, built with push (so push/grow are exercised too)
-fn mk<'a>(b: &'a Bump, max: usize) -> (Vec<'a, u8>, Model) {
+fn mk<'a>(b: &'a Bump, n: usize, cap: usize) -> (Vec<'a, u8>, Model) {
     let vals: [u8; 8] = kani::any();
-    let n: usize = kani::any();
-    kani::assume(n <= max);
-    let mut v = Vec::with_capacity_in(CAP, b);
+    let mut v = Vec::with_capacity_in(cap, b);
     let mut i = 0;
-    while i < 3 { if i < n { v.push(vals[i]); } i += 1; }
+    while i < n { v.push(vals[i]); i += 1; }
     (v, Model { a: vals, n })
 }
 /// a neighbour collection in the same arena whose contents must never be disturbed (C13 "neighbours")
@@ -36,280 +34,397 @@ fn canary<'a>(b: &'a Bump) -> Vec<'a, u8> { let mut c = Vec::with_capacity_in(2,
 fn canary_ok(c: &Vec<u8>) -> bool { c.len() == 2 && c[0] == 0xA5 && c[1] == 0x5A }
 
 #[kani::proof]
-#[kani::unwind(10)]
+#[kani::unwind(12)]
 #[kani::stub(Bump::alloc_layout_slow, no_slow)]
-fn k_vec_push_pop() {
-    let b = mk_bump::<1>(448);
-    let c = canary(&b);
-    let (mut v, mut m) = mk(&b, 3);
-    let x: u8 = kani::any();
-    v.push(x); m.a[m.n] = x; m.n += 1;
-    assert!(same(&v, &m) && v.capacity() >= v.len());
-    let p = v.pop();
-    assert!(p == Some(x)); m.n -= 1;
-    assert!(same(&v, &m));
-    let mut e: Vec<u8> = Vec::new_in(&b);
-    assert!(e.pop().is_none() && e.len() == 0);
-    e.push(x); // growth from the unallocated state, next to the others
-    assert!(e[0] == x && same(&v, &m) && canary_ok(&c));
-    kani::cover!(m.n == 3);
-    core::mem::forget(v); core::mem::forget(e); core::mem::forget(c); core::mem::forget(b);
+fn k_vec_push_pop_grow() {
+    let mut n = 2;
+    while n <= 2 {
+        let b = mk_bump::<1>(448);
+        let c = canary(&b);
+        let (mut v, mut m) = mk(&b, n, 2);      // capacity 2: pushing beyond it reallocates through the arena
+        let x: u8 = kani::any();
+        v.push(x); m.a[m.n] = x; m.n += 1;
+        assert!(same(&v, &m) && v.capacity() >= v.len() && canary_ok(&c));
+        assert!(v.pop() == Some(x)); m.n -= 1;
+        assert!(same(&v, &m));
+        let mut e: Vec<u8> = Vec::new_in(&b);
+        assert!(e.pop().is_none() && e.len() == 0);
+        e.push(x);                               // growth from the unallocated state, next to the others
+        assert!(e[0] == x && same(&v, &m) && canary_ok(&c), "C13 neighbours undisturbed");
+        core::mem::forget(v); core::mem::forget(e); core::mem::forget(c); core::mem::forget(b);
+        n += 1;
+    }
+    kani::cover!(true);
 }
 
 #[kani::proof]
-#[kani::unwind(10)]
+#[kani::unwind(12)]
 #[kani::stub(Bump::alloc_layout_slow, no_slow)]
 fn k_vec_insert_remove() {
-    let b = mk_bump::<1>(448);
-    let c = canary(&b);
-    let (mut v, mut m) = mk(&b, 3);
-    let i: usize = kani::any(); let x: u8 = kani::any();
-    kani::assume(i <= m.n);
-    v.insert(i, x); m.insert(i, x);
-    assert!(same(&v, &m) && canary_ok(&c));
-    let j: usize = kani::any();
-    kani::assume(j < m.n);
-    let r = v.remove(j);
-    assert!(r == m.remove(j) && same(&v, &m) && canary_ok(&c));
-    kani::cover!(i == 1 && j == 2);
-    core::mem::forget(v); core::mem::forget(c); core::mem::forget(b);
+    let mut n = 3;
+    while n <= 3 {
+        let mut i = 0;
+        while i <= n {
+            let b = mk_bump::<1>(448);
+            let c = canary(&b);
+            let (mut v, mut m) = mk(&b, n, CAP);
+            let x: u8 = kani::any();
+            v.insert(i, x); m.insert(i, x);
+            assert!(same(&v, &m) && canary_ok(&c));
+            let mut j = if i == 1 { 0 } else { m.n };
+            while j < m.n {
+                let mut w = v.clone();
+                let mut mw = Model { a: m.a, n: m.n };
+                let r = w.remove(j);
+                assert!(r == mw.remove(j) && same(&w, &mw));
+                core::mem::forget(w);
+                j += 1;
+            }
+            core::mem::forget(v); core::mem::forget(c); core::mem::forget(b);
+            i += 1;
+        }
+        n += 1;
+    }
+    kani::cover!(true);
 }
+fn oob<F: FnOnce(&mut Vec<u8>, usize)>(f: F) { let b = mk_bump::<1>(448); let (mut v, m) = mk(&b, 2, CAP); f(&mut v, m.n); core::mem::forget(v); core::mem::forget(b); }
 #[kani::proof]
-#[kani::unwind(10)]
+#[kani::unwind(12)]
 #[kani::should_panic]
 #[kani::stub(Bump::alloc_layout_slow, no_slow)]
-fn k_vec_insert_oob() { let b = mk_bump::<1>(448); let (mut v, m) = mk(&b, 3); let i: usize = kani::any(); kani::assume(i > m.n); v.insert(i, 1); core::mem::forget(v); core::mem::forget(b); }
+fn k_vec_insert_oob() { oob(|v, n| v.insert(n + 1, 1)) }
 #[kani::proof]
-#[kani::unwind(10)]
+#[kani::unwind(12)]
 #[kani::should_panic]
 #[kani::stub(Bump::alloc_layout_slow, no_slow)]
-fn k_vec_remove_oob() { let b = mk_bump::<1>(448); let (mut v, m) = mk(&b, 3); let i: usize = kani::any(); kani::assume(i >= m.n); v.remove(i); core::mem::forget(v); core::mem::forget(b); }
+fn k_vec_remove_oob() { oob(|v, n| { v.remove(n); }) }
+#[kani::proof]
+#[kani::unwind(12)]
+#[kani::should_panic]
+#[kani::stub(Bump::alloc_layout_slow, no_slow)]
+fn k_vec_swap_remove_oob() { oob(|v, n| { v.swap_remove(n); }) }
+#[kani::proof]
+#[kani::unwind(12)]
+#[kani::should_panic]
+#[kani::stub(Bump::alloc_layout_slow, no_slow)]
+fn k_vec_split_off_oob() { oob(|v, n| { let t = v.split_off(n + 1); core::mem::forget(t); }) }
+#[kani::proof]
+#[kani::unwind(12)]
+#[kani::should_panic]
+#[kani::stub(Bump::alloc_layout_slow, no_slow)]
+fn k_vec_drain_oob() { oob(|v, n| { let _d = v.drain(1..n + 1); }) }
+#[kani::proof]
+#[kani::unwind(12)]
+#[kani::should_panic]
+#[kani::stub(Bump::alloc_layout_slow, no_slow)]
+fn k_vec_drain_inverted() { oob(|v, _n| { let _d = v.drain(2..1); }) }
 
 #[kani::proof]
-#[kani::unwind(10)]
+#[kani::unwind(12)]
 #[kani::stub(Bump::alloc_layout_slow, no_slow)]
 fn k_vec_swap_remove_truncate() {
-    let b = mk_bump::<1>(448);
-    let (mut v, mut m) = mk(&b, 3);
-    let j: usize = kani::any();
-    kani::assume(j < m.n);
-    let r = v.swap_remove(j);
-    assert!(r == m.a[j]); m.a[j] = m.a[m.n - 1]; m.n -= 1;
-    assert!(same(&v, &m));
-    let t: usize = kani::any();
-    kani::assume(t <= 5);
-    v.truncate(t); if t < m.n { m.n = t; }
-    assert!(same(&v, &m));
-    v.clear(); assert!(v.len() == 0 && v.is_empty());
-    kani::cover!(j == 0 && t == 1);
-    core::mem::forget(v); core::mem::forget(b);
+    let mut n = 3;
+    while n <= 3 {
+        let mut j = 0;
+        while j < n {
+            let b = mk_bump::<1>(448);
+            let (mut v, mut m) = mk(&b, n, CAP);
+            let r = v.swap_remove(j);
+            assert!(r == m.a[j]); m.a[j] = m.a[m.n - 1]; m.n -= 1;
+            assert!(same(&v, &m));
+            let mut t = if j == 0 { 0 } else { 4 };
+            while t <= 3 {
+                let mut w = v.clone();
+                w.truncate(t);
+                let mw = Model { a: m.a, n: if t < m.n { t } else { m.n } };
+                assert!(same(&w, &mw));
+                w.clear(); assert!(w.len() == 0 && w.is_empty());
+                core::mem::forget(w);
+                t += 1;
+            }
+            core::mem::forget(v); core::mem::forget(b);
+            j += 1;
+        }
+        n += 1;
+    }
+    kani::cover!(true);
 }
-#[kani::proof]
-#[kani::unwind(10)]
-#[kani::should_panic]
-#[kani::stub(Bump::alloc_layout_slow, no_slow)]
-fn k_vec_swap_remove_oob() { let b = mk_bump::<1>(448); let (mut v, m) = mk(&b, 3); let i: usize = kani::any(); kani::assume(i >= m.n); v.swap_remove(i); core::mem::forget(v); core::mem::forget(b); }
 
 #[kani::proof]
-#[kani::unwind(10)]
+#[kani::unwind(12)]
 #[kani::stub(Bump::alloc_layout_slow, no_slow)]
 fn k_vec_resize_extend() {
-    let b = mk_bump::<1>(448);
-    let c = canary(&b);
-    let (mut v, mut m) = mk(&b, 2);
-    let nl: usize = kani::any(); let x: u8 = kani::any();
-    kani::assume(nl <= 4);
-    v.resize(nl, x);
-    let mut k = m.n; while k < 4 { if k < nl { m.a[k] = x; } k += 1; } m.n = nl;
-    assert!(same(&v, &m) && v.capacity() >= v.len());
-    let ext: [u8; 2] = kani::any(); let en: usize = kani::any(); kani::assume(en <= 2);
-    if kani::any() { v.extend_from_slice(&ext[..en]); } else { v.extend_from_slice_copy(&ext[..en]); }
-    let mut k = 0; while k < 2 { if k < en { m.a[m.n + k] = ext[k]; } k += 1; } m.n += en;
-    assert!(same(&v, &m) && canary_ok(&c));
-    kani::cover!(nl == 3 && en == 2);
-    core::mem::forget(v); core::mem::forget(c); core::mem::forget(b);
+    let mut n = 0;
+    while n <= 2 {
+        let mut nl = 0;
+        while nl <= 4 {
+            let b = mk_bump::<1>(448);
+            let c = canary(&b);
+            let (mut v, mut m) = mk(&b, n, 2);
+            let x: u8 = kani::any();
+            v.resize(nl, x);
+            let mut k = m.n; while k < nl { m.a[k] = x; k += 1; } m.n = nl;
+            assert!(same(&v, &m) && v.capacity() >= v.len());
+            let ext: [u8; 2] = kani::any();
+            let mut en = 0;
+            while en <= 2 {
+                let mut w = v.clone();
+                let mut mw = Model { a: m.a, n: m.n };
+                if en == 1 { w.extend_from_slice(&ext[..en]); } else { w.extend_from_slice_copy(&ext[..en]); }
+                let mut k = 0; while k < en { mw.a[mw.n + k] = ext[k]; k += 1; } mw.n += en;
+                assert!(same(&w, &mw) && canary_ok(&c));
+                core::mem::forget(w);
+                en += 1;
+            }
+            core::mem::forget(v); core::mem::forget(c); core::mem::forget(b);
+            nl += 2;
+        }
+        n += 1;
+    }
+    kani::cover!(true);
 }
 
 #[kani::proof]
-#[kani::unwind(10)]
+#[kani::unwind(12)]
 #[kani::stub(Bump::alloc_layout_slow, no_slow)]
 fn k_vec_append_split_off() {
-    let b = mk_bump::<1>(448);
-    let (mut v, mut m) = mk(&b, 2);
-    let (mut o, mo) = mk(&b, 2);
-    v.append(&mut o);
-    let mut k = 0; while k < 2 { if k < mo.n { m.a[m.n + k] = mo.a[k]; } k += 1; } m.n += mo.n;
-    assert!(same(&v, &m) && o.len() == 0);
-    let at: usize = kani::any(); kani::assume(at <= m.n);
-    let tail = v.split_off(at);
-    assert!(v.len() == at && tail.len() == m.n - at);
-    let mut k = 0; while k < 4 { if k < at { assert!(v[k] == m.a[k]); } else if k < m.n { assert!(tail[k - at] == m.a[k]); } k += 1; }
-    kani::cover!(at == 1 && m.n == 4);
-    core::mem::forget(v); core::mem::forget(o); core::mem::forget(tail); core::mem::forget(b);
+    let mut n = 0;
+    while n <= 2 {
+        let mut at = 0;
+        while at <= n + 1 {
+            let b = mk_bump::<1>(448);
+            let (mut v, mut m) = mk(&b, n, CAP);
+            let (mut o, mo) = mk(&b, 1, CAP);
+            v.append(&mut o);
+            m.a[m.n] = mo.a[0]; m.n += 1;
+            assert!(same(&v, &m) && o.len() == 0);
+            let tail = v.split_off(at);
+            assert!(v.len() == at && tail.len() == m.n - at);
+            let mut k = 0; while k < m.n { if k < at { assert!(v[k] == m.a[k]); } else { assert!(tail[k - at] == m.a[k]); } k += 1; }
+            core::mem::forget(v); core::mem::forget(o); core::mem::forget(tail); core::mem::forget(b);
+            at += 1;
+        }
+        n += 1;
+    }
+    kani::cover!(true);
 }
-#[kani::proof]
-#[kani::unwind(10)]
-#[kani::should_panic]
-#[kani::stub(Bump::alloc_layout_slow, no_slow)]
-fn k_vec_split_off_oob() { let b = mk_bump::<1>(448); let (mut v, m) = mk(&b, 3); let i: usize = kani::any(); kani::assume(i > m.n); let t = v.split_off(i); core::mem::forget(t); core::mem::forget(v); core::mem::forget(b); }
 
 #[kani::proof]
-#[kani::unwind(10)]
+#[kani::unwind(12)]
 #[kani::stub(Bump::alloc_layout_slow, no_slow)]
 fn k_vec_drain() {
-    let b = mk_bump::<1>(448);
-    let (mut v, m) = mk(&b, 3);
-    let (s, e): (usize, usize) = (kani::any(), kani::any());
-    kani::assume(s <= e && e <= m.n);
-    let take: usize = kani::any(); // partially consumed drain, front and back
-    {
-        let mut d = v.drain(s..e);
-        if take > 0 { if let Some(x) = d.next() { assert!(x == m.a[s]); } }
-        if take > 1 { if let Some(x) = d.next_back() { assert!(e - s >= 2 && x == m.a[e - 1]); } }
+    let n = 3;
+    let mut s = 0;
+    while s <= n {
+        let mut e = s;
+        while e <= n {
+            let mut take = 0;
+            while take <= 2 {
+                let b = mk_bump::<1>(448);
+                let (mut v, m) = mk(&b, n, CAP);
+                {
+                    let mut d = v.drain(s..e);
+                    if take > 0 { if let Some(x) = d.next() { assert!(x == m.a[s]); } }
+                    if take > 1 { if let Some(x) = d.next_back() { assert!(e - s >= 2 && x == m.a[e - 1]); } }
+                }
+                assert!(v.len() == m.n - (e - s));
+                let mut k = 0; while k < v.len() { if k < s { assert!(v[k] == m.a[k]); } else { assert!(v[k] == m.a[k + (e - s)]); } k += 1; }
+                core::mem::forget(v); core::mem::forget(b);
+                take += 1;
+            }
+            e += 1;
+        }
+        s += 1;
     }
-    assert!(v.len() == m.n - (e - s));
-    let mut k = 0; while k < 4 { if k < s { assert!(v[k] == m.a[k]); } else if k + (e - s) < m.n { assert!(v[k] == m.a[k + (e - s)]); } k += 1; }
-    kani::cover!(s == 1 && e == 2 && m.n == 3);
-    core::mem::forget(v); core::mem::forget(b);
+    kani::cover!(true);
 }
-#[kani::proof]
-#[kani::unwind(10)]
-#[kani::should_panic]
-#[kani::stub(Bump::alloc_layout_slow, no_slow)]
-fn k_vec_drain_oob() { let b = mk_bump::<1>(448); let (mut v, m) = mk(&b, 3); let (s, e): (usize, usize) = (kani::any(), kani::any()); kani::assume(s > e || e > m.n); { let _d = v.drain(s..e); } core::mem::forget(v); core::mem::forget(b); }
 
 #[kani::proof]
-#[kani::unwind(10)]
+#[kani::unwind(12)]
 #[kani::stub(Bump::alloc_layout_slow, no_slow)]
 fn k_vec_retain_dedup() {
-    let b = mk_bump::<1>(448);
-    let (mut v, m) = mk(&b, 3);
-    let mut w = v.clone();
-    assert!(same(&w, &m));
-    v.retain(|x| *x & 1 == 0);
-    let mut exp = Model { a: [0; 8], n: 0 };
-    let mut k = 0; while k < 4 { if k < m.n && m.a[k] & 1 == 0 { exp.a[exp.n] = m.a[k]; exp.n += 1; } k += 1; }
-    assert!(same(&v, &exp));
-    w.dedup();
-    let mut ex2 = Model { a: [0; 8], n: 0 };
-    let mut k = 0; while k < 4 { if k < m.n && (ex2.n == 0 || ex2.a[ex2.n - 1] != m.a[k]) { ex2.a[ex2.n] = m.a[k]; ex2.n += 1; } k += 1; }
-    assert!(same(&w, &ex2));
-    kani::cover!(m.n == 3 && exp.n == 1 && ex2.n == 2);
-    core::mem::forget(v); core::mem::forget(w); core::mem::forget(b);
+    let mut n = 0;
+    while n <= 3 {
+        let b = mk_bump::<1>(448);
+        let (mut v, m) = mk(&b, n, CAP);
+        let mut w = v.clone();
+        assert!(same(&w, &m));
+        v.retain(|x| *x & 1 == 0);
+        let mut exp = Model { a: [0; 8], n: 0 };
+        let mut k = 0; while k < m.n { if m.a[k] & 1 == 0 { exp.a[exp.n] = m.a[k]; exp.n += 1; } k += 1; }
+        assert!(same(&v, &exp));
+        w.dedup();
+        let mut ex2 = Model { a: [0; 8], n: 0 };
+        let mut k = 0; while k < m.n { if ex2.n == 0 || ex2.a[ex2.n - 1] != m.a[k] { ex2.a[ex2.n] = m.a[k]; ex2.n += 1; } k += 1; }
+        assert!(same(&w, &ex2));
+        if n == 3 { kani::cover!(exp.n == 1 && ex2.n == 2); }
+        core::mem::forget(v); core::mem::forget(w); core::mem::forget(b);
+        n += 1;
+    }
 }
 
 #[kani::proof]
-#[kani::unwind(10)]
+#[kani::unwind(12)]
 #[kani::stub(Bump::alloc_layout_slow, no_slow)]
 fn k_vec_drain_filter() {
-    let b = mk_bump::<1>(448);
-    let (mut v, m) = mk(&b, 3);
-    let mut got = Model { a: [0; 8], n: 0 };
-    {
-        let mut df = v.drain_filter(|x| *x >= 128);
-        let mut k = 0; while k < 4 { if let Some(x) = df.next() { got.a[got.n] = x; got.n += 1; } k += 1; }
+    let mut n = 0;
+    while n <= 3 {
+        let b = mk_bump::<1>(448);
+        let (mut v, m) = mk(&b, n, CAP);
+        let mut got = Model { a: [0; 8], n: 0 };
+        {
+            let mut df = v.drain_filter(|x| *x >= 128);
+            let mut k = 0; while k <= n { if let Some(x) = df.next() { got.a[got.n] = x; got.n += 1; } k += 1; }
+        }
+        let (mut keep, mut out) = (Model { a: [0; 8], n: 0 }, Model { a: [0; 8], n: 0 });
+        let mut k = 0; while k < m.n { if m.a[k] >= 128 { out.a[out.n] = m.a[k]; out.n += 1; } else { keep.a[keep.n] = m.a[k]; keep.n += 1; } k += 1; }
+        assert!(same(&v, &keep) && got.n == out.n);
+        let mut k = 0; while k < out.n { assert!(got.a[k] == out.a[k]); k += 1; }
+        if n == 3 { kani::cover!(out.n == 1 && keep.n == 2); }
+        core::mem::forget(v); core::mem::forget(b);
+        n += 1;
     }
-    let (mut keep, mut out) = (Model { a: [0; 8], n: 0 }, Model { a: [0; 8], n: 0 });
-    let mut k = 0; while k < 4 { if k < m.n { if m.a[k] >= 128 { out.a[out.n] = m.a[k]; out.n += 1; } else { keep.a[keep.n] = m.a[k]; keep.n += 1; } } k += 1; }
-    assert!(same(&v, &keep) && got.n == out.n);
-    let mut k = 0; while k < 4 { if k < out.n { assert!(got.a[k] == out.a[k]); } k += 1; }
-    kani::cover!(out.n == 1 && keep.n == 2);
-    core::mem::forget(v); core::mem::forget(b);
 }
 
 /// reserve / shrink_to_fit next to other growing collections; capacity promises (C13, C18); the data must follow the buffer
 #[kani::proof]
-#[kani::unwind(10)]
+#[kani::unwind(20)]
 #[kani::stub(Bump::alloc_layout_slow, no_slow)]
 fn k_vec_reserve_shrink() {
-    let b = mk_bump::<1>(448);
-    let c = canary(&b);
-    let (mut v, m) = mk(&b, 3);
-    let add: usize = kani::any(); kani::assume(add <= 9);
-    v.reserve(add);
-    assert!(v.capacity() >= v.len() + add, "C13/C18 reserve promise");
-    let p0 = v.as_ptr() as usize; let cap0 = v.capacity();
-    let mut k = 0; let spare = cap0 - v.len();
-    let mut mm = Model { a: m.a, n: m.n };
-    while k < 2 { if k < add && k < spare { v.push(7); mm.a[mm.n] = 7; mm.n += 1; } k += 1; }
-    assert!(v.as_ptr() as usize == p0, "C18 pushes within the reserved capacity do not move the buffer");
-    v.shrink_to_fit();
-    assert!(v.capacity() >= v.len() && same(&v, &mm));
-    // later allocations in the same arena must not land on the (possibly moved) buffer
-    let n1 = b.alloc_slice_fill_copy(16, 0xEEu8);
-    let mut o: Vec<u8> = Vec::with_capacity_in(8, &b); o.push(0xDD); o.push(0xDD);
-    assert!(n1[0] == 0xEE && same(&v, &mm) && canary_ok(&c), "C13 neighbours never disturb each other");
-    assert!(v.try_reserve(1).is_ok());
-    kani::cover!(add == 9 && mm.n == 3);
-    core::mem::forget(v); core::mem::forget(o); core::mem::forget(c); core::mem::forget(b);
+    let adds = [0usize, 1, 9];
+    let mut ai = 0;
+    while ai < 3 {
+        let add = adds[ai];
+        let mut n = 0;
+        while n <= 3 {
+            let b = mk_bump::<1>(448);
+            let c = canary(&b);
+            let (mut v, m) = mk(&b, n, 4);
+            v.reserve(add);
+            assert!(v.capacity() >= v.len() + add, "C13/C18 reserve promise");
+            let p0 = v.as_ptr() as usize;
+            let mut mm = Model { a: m.a, n: m.n };
+            let mut k = 0;
+            while k < add && k < 2 { v.push(7); mm.a[mm.n] = 7; mm.n += 1; k += 1; }
+            assert!(v.as_ptr() as usize == p0, "C18 pushes within the reserved capacity do not move the buffer");
+            v.shrink_to_fit();
+            assert!(v.capacity() >= v.len() && same(&v, &mm));
+            // later allocations in the same arena must not land on the (possibly moved) buffer
+            let n1 = b.alloc_slice_fill_copy(16, 0xEEu8);
+            let mut o: Vec<u8> = Vec::with_capacity_in(8, &b); o.push(0xDD); o.push(0xDD);
+            assert!(n1[0] == 0xEE && n1[15] == 0xEE && same(&v, &mm) && canary_ok(&c), "C13 neighbours never disturb each other");
+            assert!(v.try_reserve(1).is_ok());
+            core::mem::forget(v); core::mem::forget(o); core::mem::forget(c); core::mem::forget(b);
+            n += 1;
+        }
+        ai += 1;
+    }
+    kani::cover!(true);
 }
 
 #[kani::proof]
-#[kani::unwind(10)]
+#[kani::unwind(12)]
 #[kani::stub(Bump::alloc_layout_slow, no_slow)]
 fn k_vec_into_iter_slices() {
-    let b = mk_bump::<1>(448);
-    let (v, m) = mk(&b, 3);
-    let w = v.clone();
-    let u = v.clone();
-    let mut it = v.into_iter();
-    if m.n > 0 { assert!(it.next() == Some(m.a[0])); }
-    if m.n > 1 { assert!(it.next_back() == Some(m.a[m.n - 1])); assert!(it.len() == m.n - 2); }
-    drop(it);
-    let s = w.into_bump_slice();
-    assert!(s.len() == m.n);
-    let bx = u.into_boxed_slice();
-    assert!(bx.len() == m.n);
-    // allocate after the conversion: the boxed slice and the bump slice keep their contents (C17)
-    let later = b.alloc_slice_fill_copy(24, 0x33u8);
-    let mut k = 0; while k < 4 { if k < m.n { assert!(s[k] == m.a[k] && bx[k] == m.a[k]); } k += 1; }
-    assert!(later[23] == 0x33);
-    let f: Vec<u8> = Vec::from_iter_in(s.iter().copied(), &b);
-    assert!(same(&f, &m));
-    kani::cover!(m.n == 3);
-    core::mem::forget(bx); core::mem::forget(f); core::mem::forget(b);
+    let mut n = 0;
+    while n <= 3 {
+        let b = mk_bump::<1>(448);
+        let (v, m) = mk(&b, n, CAP);
+        let w = v.clone();
+        let u = v.clone();
+        let mut it = v.into_iter();
+        if m.n > 0 { assert!(it.next() == Some(m.a[0])); }
+        if m.n > 1 { assert!(it.next_back() == Some(m.a[m.n - 1])); assert!(it.len() == m.n - 2); }
+        drop(it);
+        let s = w.into_bump_slice();
+        assert!(s.len() == m.n);
+        let bx = u.into_boxed_slice();
+        assert!(bx.len() == m.n);
+        // allocate after the conversion: the boxed slice and the bump slice keep their contents (C17)
+        let later = b.alloc_slice_fill_copy(24, 0x33u8);
+        let mut k = 0; while k < m.n { assert!(s[k] == m.a[k] && bx[k] == m.a[k]); k += 1; }
+        assert!(later[23] == 0x33 && later[0] == 0x33);
+        let f: Vec<u8> = Vec::from_iter_in(s.iter().copied(), &b);
+        assert!(same(&f, &m));
+        core::mem::forget(bx); core::mem::forget(f); core::mem::forget(b);
+        n += 1;
+    }
+    kani::cover!(true);
 }
 
 #[kani::proof]
-#[kani::unwind(10)]
+#[kani::unwind(12)]
 #[kani::stub(Bump::alloc_layout_slow, no_slow)]
 fn k_vec_splice() {
-    let b = mk_bump::<1>(448);
-    let (mut v, m) = mk(&b, 3);
-    let (s, e): (usize, usize) = (kani::any(), kani::any());
-    kani::assume(s <= e && e <= m.n);
-    let rep: [u8; 2] = kani::any(); let rn: usize = kani::any(); kani::assume(rn <= 2);
-    { let _sp = v.splice(s..e, rep[..rn].iter().copied()); }
-    assert!(v.len() == m.n - (e - s) + rn);
-    let mut k = 0;
-    while k < 6 {
-        if k < s { assert!(v[k] == m.a[k]); }
-        else if k < s + rn { assert!(v[k] == rep[k - s]); }
-        else if k < v.len() { assert!(v[k] == m.a[k - rn + (e - s)]); }
-        k += 1;
+    let n = 3;
+    let mut s = 0;
+    while s <= n {
+        let mut e = s;
+        while e <= n {
+            let mut rn = 0;
+            while rn <= 2 {
+                let b = mk_bump::<1>(448);
+                let (mut v, m) = mk(&b, n, CAP);
+                let rep: [u8; 2] = kani::any();
+                { let _sp = v.splice(s..e, rep[..rn].iter().copied()); }
+                assert!(v.len() == m.n - (e - s) + rn);
+                let mut k = 0;
+                while k < v.len() {
+                    if k < s { assert!(v[k] == m.a[k]); }
+                    else if k < s + rn { assert!(v[k] == rep[k - s]); }
+                    else { assert!(v[k] == m.a[k - rn + (e - s)]); }
+                    k += 1;
+                }
+                core::mem::forget(v); core::mem::forget(b);
+                rn += 1;
+            }
+            e += 1;
+        }
+        s += 2;
     }
-    kani::cover!(s == 1 && e == 2 && rn == 2 && m.n == 3);
-    core::mem::forget(v); core::mem::forget(b);
+    kani::cover!(true);
 }
 
 /// zero-sized elements: lengths only, capacity is usize::MAX, nothing is ever allocated
 #[kani::proof]
-#[kani::unwind(10)]
+#[kani::unwind(12)]
 #[kani::stub(Bump::alloc_layout_slow, no_slow)]
 fn k_vec_zst() {
+    let mut n = 0;
+    while n <= 3 {
+        let b = mk_bump::<1>(448);
+        let f0 = finger(&b);
+        let mut v: Vec<()> = Vec::new_in(&b);
+        let mut k = 0; while k < n { v.push(()); k += 1; }
+        assert!(v.len() == n && v.capacity() == usize::MAX);
+        if n > 0 { v.remove(0); assert!(v.len() == n - 1); }
+        v.insert(0, ());
+        assert!(v.pop() == Some(()));
+        assert!(finger(&b) == f0, "ZST vectors never take arena memory");
+        core::mem::forget(v); core::mem::forget(b);
+        n += 1;
+    }
+    kani::cover!(true);
+}
+/// C19: counts beyond usize::MAX are refused for zero-sized elements too (only the count addition guards them)
+#[kani::proof]
+#[kani::unwind(12)]
+#[kani::stub(Bump::alloc_layout_slow, no_slow)]
+fn k_ovf_vec() {
     let b = mk_bump::<1>(448);
-    let f0 = finger(&b);
     let mut v: Vec<()> = Vec::new_in(&b);
-    let n: usize = kani::any(); kani::assume(n <= 3);
-    let mut k = 0; while k < 3 { if k < n { v.push(()); } k += 1; }
-    assert!(v.len() == n && v.capacity() == usize::MAX);
-    if n > 0 { v.remove(0); assert!(v.len() == n - 1); }
-    v.insert(0, ());
-    assert!(v.pop() == Some(()));
-    assert!(finger(&b) == f0, "ZST vectors never take arena memory");
-    assert!(v.try_reserve(usize::MAX).is_err(), "C19 capacity overflow is refused for ZSTs too");
-    kani::cover!(n == 3);
-    core::mem::forget(v); core::mem::forget(b);
+    v.push(());
+    let add: usize = kani::any();
+    kani::assume(add == usize::MAX || add == usize::MAX - 1);
+    let r = v.try_reserve(add);
+    assert!(r.is_err() == (add == usize::MAX), "C19 len + additional > usize::MAX is refused");
+    let mut w: Vec<u64> = Vec::new_in(&b);
+    let big: usize = kani::any();
+    kani::assume(big > (isize::MAX as usize) / 8);
+    assert!(w.try_reserve(big).is_err() && w.try_reserve_exact(big).is_err(), "C19 byte size beyond isize::MAX is refused");
+    assert!(w.capacity() == 0);
+    kani::cover!(true);
+    core::mem::forget(v); core::mem::forget(w); core::mem::forget(b);
 }
 
 // =====================================================================================================================
@@ -318,98 +433,105 @@ fn k_vec_zst() {
 pub static mut DROPS: [u8; 8] = [0; 8];
 pub struct D(pub u8);
 impl Drop for D { fn drop(&mut self) { unsafe { DROPS[self.0 as usize] += 1; } } }
-impl Clone for D { fn clone(&self) -> D { D(self.0 + 4) } }
 unsafe fn reset_drops() { let mut i = 0; while i < 8 { DROPS[i] = 0; i += 1; } }
 unsafe fn drops(i: usize) -> u8 { DROPS[i] }
-fn mkd<'a>(b: &'a Bump, n: usize) -> Vec<'a, D> { let mut v = Vec::with_capacity_in(4, b); let mut i = 0; while i < 4 { if i < n { v.push(D(i as u8)); } i += 1; } v }
-unsafe fn all_once(n: usize) -> bool { let mut ok = true; let mut i = 0; while i < 4 { if i < n && DROPS[i] != 1 { ok = false; } i += 1; } ok }
-unsafe fn none_dropped(n: usize) -> bool { let mut ok = true; let mut i = 0; while i < 4 { if i < n && DROPS[i] != 0 { ok = false; } i += 1; } ok }
+fn mkd<'a>(b: &'a Bump, n: usize) -> Vec<'a, D> { let mut v = Vec::with_capacity_in(4, b); let mut i = 0; while i < n { v.push(D(i as u8)); i += 1; } v }
+unsafe fn all_once(n: usize) -> bool { let mut ok = true; let mut i = 0; while i < n { if DROPS[i] != 1 { ok = false; } i += 1; } ok }
+unsafe fn none_dropped(n: usize) -> bool { let mut ok = true; let mut i = 0; while i < n { if DROPS[i] != 0 { ok = false; } i += 1; } ok }
 
 #[kani::proof]
-#[kani::unwind(10)]
+#[kani::unwind(12)]
 #[kani::stub(Bump::alloc_layout_slow, no_slow)]
 fn k_drop_vec_ops() {
-    unsafe { reset_drops(); }
-    let b = mk_bump::<1>(448);
-    let n: usize = kani::any(); kani::assume(n >= 1 && n <= 3);
-    let mut v = mkd(&b, n);
-    let x = v.pop().unwrap();
-    unsafe { assert!(none_dropped(n), "C15 pop hands the value to the caller"); }
-    drop(x);
-    unsafe { assert!(drops(n - 1) == 1); }
-    if n >= 2 {
-        let i: usize = kani::any(); kani::assume(i < n - 1);
-        let y = if kani::any() { v.remove(i) } else { v.swap_remove(i) };
-        let id = y.0 as usize;
-        unsafe { assert!(drops(id) == 0); }
-        core::mem::forget(y); // caller keeps it
-        unsafe { DROPS[id] = 1; }
+    let mut n = 1;
+    while n <= 3 {
+        let mut t = 0;
+        while t <= 2 {
+            unsafe { reset_drops(); }
+            let b = mk_bump::<1>(448);
+            let mut v = mkd(&b, n);
+            let x = v.pop().unwrap();
+            unsafe { assert!(none_dropped(n), "C15 pop hands the value to the caller"); }
+            drop(x);
+            unsafe { assert!(drops(n - 1) == 1); }
+            if n >= 2 {
+                let y = if kani::any() { v.remove(0) } else { v.swap_remove(0) };
+                let id = y.0 as usize;
+                unsafe { assert!(drops(id) == 0, "C15 remove hands the value to the caller"); }
+                drop(y);
+            }
+            v.truncate(t);
+            drop(v);
+            unsafe { assert!(all_once(n), "C15 every element dropped exactly once"); }
+            core::mem::forget(b);
+            t += 2;
+        }
+        n += 1;
     }
-    let t: usize = kani::any(); kani::assume(t <= 3);
-    v.truncate(t);
-    drop(v);
-    unsafe { assert!(all_once(n), "C15 every element dropped exactly once"); }
-    kani::cover!(n == 3);
-    core::mem::forget(b);
+    kani::cover!(true);
 }
 
 #[kani::proof]
-#[kani::unwind(10)]
+#[kani::unwind(12)]
 #[kani::stub(Bump::alloc_layout_slow, no_slow)]
 fn k_drop_iters() {
-    unsafe { reset_drops(); }
-    let b = mk_bump::<1>(448);
-    let n: usize = kani::any(); kani::assume(n <= 3);
-    let v = mkd(&b, n);
-    let mut it = v.into_iter();
-    let take: usize = kani::any();
-    if take > 0 { let _ = it.next(); }        // consumed item is dropped by the caller (here: immediately)
-    if take > 1 { let _ = it.next_back(); }
-    drop(it);                                  // the rest by the iterator
-    unsafe { assert!(all_once(n), "C15 into_iter: consumed + remaining, each exactly once"); reset_drops(); }
-    let mut w = mkd(&b, n);
-    let (s, e): (usize, usize) = (kani::any(), kani::any());
-    kani::assume(s <= e && e <= n);
-    { let mut d = w.drain(s..e); if take > 0 { let _ = d.next(); } }
-    let mut k = 0; while k < 4 { if k < n { unsafe { assert!(drops(k) == if k >= s && k < e { 1 } else { 0 }, "C15 drain drops exactly the drained range"); } } k += 1; }
-    drop(w);
-    unsafe { assert!(all_once(n)); }
-    kani::cover!(n == 3 && s == 1 && e == 3);
-    core::mem::forget(b);
+    let n = 3;
+    let mut take = 0;
+    while take <= 2 {
+        unsafe { reset_drops(); }
+        let b = mk_bump::<1>(448);
+        let v = mkd(&b, n);
+        let mut it = v.into_iter();
+        if take > 0 { let _ = it.next(); }        // a consumed item is dropped by the caller (here: at once)
+        if take > 1 { let _ = it.next_back(); }
+        drop(it);                                  // the rest by the iterator
+        unsafe { assert!(all_once(n), "C15 into_iter: consumed + remaining, each exactly once"); reset_drops(); }
+        let mut w = mkd(&b, n);
+        { let mut d = w.drain(1..3); if take > 0 { let _ = d.next(); } }
+        unsafe { assert!(drops(0) == 0 && drops(1) == 1 && drops(2) == 1, "C15 drain drops exactly the drained range"); }
+        drop(w);
+        unsafe { assert!(all_once(n)); }
+        core::mem::forget(b);
+        take += 1;
+    }
+    kani::cover!(true);
 }
 
 #[kani::proof]
-#[kani::unwind(10)]
+#[kani::unwind(12)]
 #[kani::stub(Bump::alloc_layout_slow, no_slow)]
 fn k_drop_dedup_retain() {
-    unsafe { reset_drops(); }
-    let b = mk_bump::<1>(448);
-    let n: usize = kani::any(); kani::assume(n <= 3);
-    let mut v = mkd(&b, n);
-    let keys: [u8; 4] = kani::any();
-    if kani::any() {
-        v.dedup_by_key(|d| keys[d.0 as usize]);
-    } else {
-        v.retain(|d| keys[d.0 as usize] & 1 == 0);
+    let mut n = 0;
+    while n <= 3 {
+        unsafe { reset_drops(); }
+        let b = mk_bump::<1>(448);
+        let mut v = mkd(&b, n);
+        let keys: [u8; 4] = kani::any();
+        if kani::any() {
+            v.dedup_by_key(|d| keys[d.0 as usize]);
+        } else {
+            v.retain(|d| keys[d.0 as usize] & 1 == 0);
+        }
+        // every element is either still in the vector (not dropped) or was removed (dropped once)
+        let mut present = [false; 4];
+        let mut k = 0; while k < v.len() { present[v[k].0 as usize] = true; k += 1; }
+        let mut k = 0; while k < n { unsafe { assert!(drops(k) == if present[k] { 0 } else { 1 }, "C15 removed elements dropped once, kept ones not at all"); } k += 1; }
+        drop(v);
+        unsafe { assert!(all_once(n)); }
+        core::mem::forget(b);
+        n += 1;
     }
-    // every element is either still in the vector (not dropped) or was removed (dropped once)
-    let mut present = [false; 4];
-    let mut k = 0; while k < 4 { if k < v.len() { present[v[k].0 as usize] = true; } k += 1; }
-    let mut k = 0; while k < 4 { if k < n { unsafe { assert!(drops(k) == if present[k] { 0 } else { 1 }, "C15 removed elements dropped once, kept ones not at all"); } } k += 1; }
-    drop(v);
-    unsafe { assert!(all_once(n)); }
-    kani::cover!(n == 3);
-    core::mem::forget(b);
+    kani::cover!(true);
 }
 
 /// leak amplification instead of double drop: a forgotten DrainFilter / Drain must never lead to a second drop (C15/C16)
 #[kani::proof]
-#[kani::unwind(10)]
+#[kani::unwind(12)]
 #[kani::stub(Bump::alloc_layout_slow, no_slow)]
 fn k_drop_forgotten_iterators() {
+    let n = 3;
     unsafe { reset_drops(); }
     let b = mk_bump::<1>(448);
-    let n: usize = kani::any(); kani::assume(n >= 1 && n <= 3);
     let mut v = mkd(&b, n);
     let sel: [bool; 4] = kani::any();
     {
@@ -419,13 +541,13 @@ fn k_drop_forgotten_iterators() {
         drop(first);
     }
     drop(v);
-    let mut k = 0; while k < 4 { if k < n { unsafe { assert!(drops(k) <= 1, "C15/C16 never dropped twice (leaking is allowed)"); } } k += 1; }
+    let mut k = 0; while k < n { unsafe { assert!(drops(k) <= 1, "C15/C16 never dropped twice (leaking is allowed)"); } k += 1; }
     unsafe { reset_drops(); }
     let mut w = mkd(&b, n);
     { let mut d = w.drain(0..1); let x = d.next(); core::mem::forget(d); drop(x); }
     drop(w);
-    let mut k = 0; while k < 4 { if k < n { unsafe { assert!(drops(k) <= 1); } } k += 1; }
-    kani::cover!(n == 3);
+    let mut k = 0; while k < n { unsafe { assert!(drops(k) <= 1); } k += 1; }
+    kani::cover!(true);
     core::mem::forget(b);
 }
 
@@ -434,37 +556,39 @@ pub static mut ZDROPS: usize = 0;
 pub struct Z;
 impl Drop for Z { fn drop(&mut self) { unsafe { ZDROPS += 1; } } }
 #[kani::proof]
-#[kani::unwind(10)]
+#[kani::unwind(12)]
 #[kani::stub(Bump::alloc_layout_slow, no_slow)]
 fn k_drop_zst() {
-    unsafe { ZDROPS = 0; }
-    let b = mk_bump::<1>(448);
-    let n: usize = kani::any(); kani::assume(n <= 3);
-    let mut v: Vec<Z> = Vec::new_in(&b);
-    let mut k = 0; while k < 3 { if k < n { v.push(Z); } k += 1; }
-    let mut it = v.into_iter();
-    let take: usize = kani::any(); kani::assume(take <= 1);
-    if take == 1 { let _ = it.next(); }
-    drop(it);
-    unsafe { assert!(ZDROPS == n, "C15 zero-sized elements are dropped exactly once too"); }
-    let mut w: Vec<Z> = Vec::new_in(&b);
-    w.push(Z); w.push(Z);
-    w.truncate(1);
-    unsafe { assert!(ZDROPS == n + 1); }
-    drop(w);
-    unsafe { assert!(ZDROPS == n + 2); }
-    kani::cover!(n == 3);
-    core::mem::forget(b);
+    let mut n = 0;
+    while n <= 3 {
+        unsafe { ZDROPS = 0; }
+        let b = mk_bump::<1>(448);
+        let mut v: Vec<Z> = Vec::new_in(&b);
+        let mut k = 0; while k < n { v.push(Z); k += 1; }
+        let mut it = v.into_iter();
+        if n >= 2 { let _ = it.next(); }
+        drop(it);
+        unsafe { assert!(ZDROPS == n, "C15 zero-sized elements are dropped exactly once too"); }
+        let mut w: Vec<Z> = Vec::new_in(&b);
+        w.push(Z); w.push(Z);
+        w.truncate(1);
+        unsafe { assert!(ZDROPS == n + 1); }
+        drop(w);
+        unsafe { assert!(ZDROPS == n + 2); }
+        core::mem::forget(b);
+        n += 1;
+    }
+    kani::cover!(true);
 }
 
 /// conversions that must NOT run destructors: into_bump_slice, arena reset/drop
 #[kani::proof]
-#[kani::unwind(10)]
+#[kani::unwind(12)]
 #[kani::stub(Bump::alloc_layout_slow, no_slow)]
 fn k_drop_no_destructors() {
     unsafe { reset_drops(); }
     let mut b = mk_bump::<1>(448);
-    let n: usize = kani::any(); kani::assume(n <= 3);
+    let n = 3;
     {
         let v = mkd(&b, n);
         let s = v.into_bump_slice();
@@ -477,7 +601,7 @@ fn k_drop_no_destructors() {
     }
     b.reset();
     unsafe { assert!(none_dropped(n), "C15 arena reset never runs destructors"); }
-    kani::cover!(n == 3);
+    kani::cover!(true);
     core::mem::forget(b);
 }
 
@@ -485,16 +609,16 @@ fn k_drop_no_destructors() {
 /// (len == 0), so a panicking predicate can at worst leak
 pub static mut VEC_PTR: *const Vec<'static, D> = core::ptr::null();
 #[kani::proof]
-#[kani::unwind(10)]
+#[kani::unwind(12)]
 #[kani::stub(Bump::alloc_layout_slow, no_slow)]
 fn k_cb_retain_len_zero() {
+    let n = 3;
     let b = mk_bump::<1>(448);
-    let n: usize = kani::any(); kani::assume(n >= 1 && n <= 3);
     let mut v = mkd(&b, n);
     unsafe { VEC_PTR = &v as *const Vec<D> as *const Vec<'static, D>; }
     let mut calls = 0;
     v.retain(|_d| { calls += 1; unsafe { assert!((*VEC_PTR).len() == 0, "C16 nothing reachable while user code runs"); } true });
     assert!(calls == n && v.len() == n);
-    kani::cover!(n == 3);
+    kani::cover!(true);
     core::mem::forget(v); core::mem::forget(b);
 }
